@@ -322,7 +322,7 @@ def detached(v, kind, item):
     return v.detached(kind, item)
 
 
-def pointwise(vold, vnew, kind, expected, lo=0):
+def pointwise(vold, vnew, kind, expected, lo=0, src=None):
     """forall p in [0, len(vnew)): content at p of vnew == expected(p, old_content_at_p or None-marker)
 
     ``expected(p, old)`` gets the position and a function old() giving the content at p in vold
@@ -337,9 +337,56 @@ def pointwise(vold, vnew, kind, expected, lo=0):
         len1 = vlen(vnew, kind)
         len0 = vlen(vold, kind)
         loc1 = z3.And(0 <= i1, i1 < zint(m1.n), p <= m1[i1], z3.Implies(i1 > 0, m1[i1 - 1] < p))
-        loc0 = z3.Implies(p < len0, z3.And(0 <= i0, i0 < zint(m0.n), p <= m0[i0], z3.Implies(i0 > 0, m0[i0 - 1] < p)))
+        q = src(p) if src is not None else p     # old position whose content is read
+        loc0 = z3.Implies(z3.And(0 <= q, q < len0),
+                          z3.And(0 <= i0, i0 < zint(m0.n), q <= m0[i0], z3.Implies(i0 > 0, m0[i0 - 1] < q)))
         new_content = vnew.pl_of(s1[i1])
         old_content = vold.pl_of(s0[i0])
         exp = expected(p, old_content, len0)
         return z3.ForAll([p, i0, i1], z3.Implies(z3.And(lo <= p, p < len1, loc1, loc0), new_content == exp))
-    return vnew.pointwise(vold, kind, expected, lo)
+    return vnew.pointwise(vold, kind, expected, lo, src)
+
+
+def cache_reset(v, mname):
+    """the wrapper cache of `mname` is empty"""
+    if isinstance(v, VaultView):
+        i = z3.FreshInt("i")
+        return z3.ForAll([i], v.cache(mname, i) == -1)
+    return v.cache_empty(mname)
+
+
+def exists_before(w):
+    """the wrapper's node existed at function entry (symbolic side only)"""
+    if isinstance(w, WrapView):
+        return z3.And(0 <= w.node, w.node < w.N0)
+    return True
+
+
+def is_fresh(r, *pre):
+    """r's node was created during the call: it is none of the nodes of the pre-state views"""
+    if isinstance(r, WrapView):
+        return r.node >= pre[0].N0
+    for v in pre:
+        if r.node == v.node:
+            return False
+        for kind in getattr(v, "kinds", ()):
+            if r.node in v.snap[kind]["ids"]:
+                return False
+    return True
+
+
+def fits(a_vault, mname, position, rep):
+    """position + rep - 1 stays inside the run containing position"""
+    if isinstance(a_vault, VaultView):
+        m = a_vault.map(mname)
+        i = z3.FreshInt("i")
+        mi = m[i]
+        return z3.ForAll([i], z3.Implies(
+            z3.And(0 <= i, i < zint(m.n), position <= mi, z3.Implies(i > 0, m[i - 1] < position)),
+            position + rep - 1 <= mi), patterns=[mi])
+    kind = KIND_OF_MAP[mname]
+    m = a_vault.snap[kind]["map"]
+    for i, end in enumerate(m):
+        if position <= end and (i == 0 or m[i - 1] < position):
+            return position + rep - 1 <= end
+    return True
